@@ -44,13 +44,13 @@ def uOrd (x : T) (σ : List ℕ) : ℚ :=
   if σ ∈ allOrders x.f x.out then 1 / countCode x.f x.out.length else 0
 
 /-- the conditional SMC kernel along `σ`, on the common state space of all orders -/
-def kernelAlong (dt : Data) (c : Cfg) (D : List ℕ) (θ : ℚ) (m : ℕ) (u : ℚ) (s : Ord D)
+def kernelAlong (dt : Data) (c : Cfg) (D : List ℕ) (κ θ : ℚ) (m : ℕ) (u : ℚ) (s : Ord D)
     (x y : St (allStates c D)) : ℚ :=
-  ASMC.kernel (spec dt c s.1 (allStates c D) (states_sub_allStates s.2) θ m) u s.1.length x y
+  ASMC.kernel (spec dt c s.1 κ (allStates c D) (states_sub_allStates s.2) θ m) u s.1.length x y
 
 /-- the particle-Gibbs kernel: draw the order, sweep along it -/
-def pgKernel (dt : Data) (c : Cfg) (D : List ℕ) (θ : ℚ) (m : ℕ) (u : ℚ) (x y : St (allStates c D)) : ℚ :=
-  ∑ s : Ord D, uOrd x.1 s.1 * kernelAlong dt c D θ m u s x y
+def pgKernel (dt : Data) (c : Cfg) (D : List ℕ) (κ θ : ℚ) (m : ℕ) (u : ℚ) (x y : St (allStates c D)) : ℚ :=
+  ∑ s : Ord D, uOrd x.1 s.1 * kernelAlong dt c D κ θ m u s x y
 
 theorem sum_indicator_subtype {α : Type} [DecidableEq α] (P : List α) : ∀ (A : List α), A.Nodup →
     (∀ a ∈ A, a ∈ P) → ∀ v : ℚ, ∑ s : {s // s ∈ P}, (if s.1 ∈ A then v else 0) = (A.length : ℚ) * v := by
@@ -98,8 +98,8 @@ theorem finals_wft (h : HypD dt c D) {x : T} (hx : x ∈ finals c D) :
   exact this.trans (perm_of_mem_perms D σ hσ)
 
 /-- **the joint target factorises**: `pOne x · P(σ | x)` is the last-level target of the sweep along `σ` -/
-theorem piD_uOrd (h : HypD dt c D) (s : Ord D) (x : T) :
-    piD dt c D x * uOrd x s.1 = gT dt c s.1 s.1.length x := by
+theorem piD_uOrd (h : HypD dt c D) (κ : ℚ) (s : Ord D) (x : T) :
+    κ * (piD dt c D x * uOrd x s.1) = gT dt c s.1 κ s.1.length x := by
   have hh := h.hyp s.2
   have hlen : s.1.length ≠ 0 := by
     rw [length_of_mem_perms' s.2]
@@ -110,14 +110,14 @@ theorem piD_uOrd (h : HypD dt c D) (s : Ord D) (x : T) :
     have ho := (reachable_iff_order c s.1 hh.nodup x w).mp hx
     unfold piD uOrd gT pdfOf
     rw [if_pos hf, if_pos ho, if_pos hx, if_neg hlen, if_pos rfl, if_pos h.perm]
-  · have : gT dt c s.1 s.1.length x = 0 := by unfold gT; rw [if_neg hx]
+  · have : gT dt c s.1 κ s.1.length x = 0 := by unfold gT; rw [if_neg hx]
     rw [this]
     unfold piD uOrd
     by_cases hf : x ∈ finals c D
     · have w := (finals_wft h hf).1
       have ho : s.1 ∉ allOrders x.f x.out := fun ho => hx ((reachable_iff_order c s.1 hh.nodup x w).mpr ho)
-      rw [if_neg ho, mul_zero]
-    · rw [if_neg hf, zero_mul]
+      rw [if_neg ho, mul_zero, mul_zero]
+    · rw [if_neg hf, zero_mul, mul_zero]
 
 /-- the order law is a probability distribution for every complete tree -/
 theorem uOrd_sum (h : HypD dt c D) {x : T} (hx : x ∈ finals c D) : ∑ s : Ord D, uOrd x s.1 = 1 := by
@@ -144,18 +144,20 @@ theorem uOrd_sum (h : HypD dt c D) {x : T} (hx : x ∈ finals c D) : ∑ s : Ord
 
 /-- **Stage 2.**  Drawing the order uniformly from the compatible orders of the current tree and then
 sweeping along it leaves `pOne` invariant on the complete trees of the data set. -/
-theorem pg_invariant_abstract (h : HypD dt c D) (θ : ℚ) (m : ℕ) (u : ℚ) (hu : 0 < u)
+theorem pg_invariant_abstract (h : HypD dt c D) (κ : ℚ) (hκ : 0 < κ) (θ : ℚ) (m : ℕ) (u : ℚ) (hu : 0 < u)
     (y : St (allStates c D)) :
-    ∑ x : St (allStates c D), piD dt c D x.1 * pgKernel dt c D θ m u x y = piD dt c D y.1 := by
+    ∑ x : St (allStates c D), piD dt c D x.1 * pgKernel dt c D κ θ m u x y = piD dt c D y.1 := by
   apply Moves.aux_mixture_invariant (fun x : St (allStates c D) => piD dt c D x.1)
-    (fun x (s : Ord D) => uOrd x.1 s.1) (fun s x y => kernelAlong dt c D θ m u s x y)
+    (fun x (s : Ord D) => uOrd x.1 s.1) (fun s x y => kernelAlong dt c D κ θ m u s x y)
   · intro x hx
     apply uOrd_sum h
     by_contra hf
     exact hx (by unfold piD; rw [if_neg hf])
   · intro s y
-    simp only [piD_uOrd h s]
-    exact pg_csmc_invariant (h.hyp s.2) (states_sub_allStates s.2) θ m u hu y
+    apply mul_left_cancel₀ (ne_of_gt hκ)
+    rw [Finset.mul_sum]
+    simp only [← mul_assoc, piD_uOrd h κ s]
+    exact pg_csmc_invariant (h.hyp s.2) hκ (states_sub_allStates s.2) θ m u hu y
 
 #print axioms pg_invariant_abstract
 end PhyModel.PG
